@@ -174,3 +174,83 @@ fn c05_ucontext_to_context() {
     assert_eq!(cc.get_stack_pointer(), cc.inner.context.uc_mcontext.gregs[G_RSP] as usize);
     kani::cover!(out.rsi != out.rdi && out.fs != out.gs, "distinct registers");
 }
+
+// ---- C05: the exception record carries exactly what the caller supplied ----
+// exception_stream::write on a writer configured with a crash context (every siginfo field symbolic,
+// including NEGATIVE signal codes such as SI_TKILL = -6) or without one (DUMP_REQUESTED).
+fn exception_record(with_crash_context: bool, ctx_kind: u8) {
+    use crate::linux::minidump_writer::{CrashingThreadContext, MinidumpWriter};
+    use crate::linux::sections::exception_stream;
+    use crate::mem_writer::Buffer;
+    use crate::minidump_format::{MDLocationDescriptor, MDStreamType};
+    let mut cfg = MinidumpWriter::new(4242, 4243);
+    let blamed: i32 = kani::any();
+    cfg.blamed_thread = blamed;
+    let loc = MDLocationDescriptor { data_size: kani::any(), rva: kani::any() };
+    let addr: usize = kani::any();
+    cfg.crashing_thread_context = match ctx_kind {
+        0 => CrashingThreadContext::None,
+        1 => CrashingThreadContext::CrashContext(loc),
+        _ => CrashingThreadContext::CrashContextPlusAddress((loc, addr)),
+    };
+    let mut ssi = (0u32, 0i32, 0u64);
+    if with_crash_context {
+        let mut cc: crash_context::CrashContext = unsafe { core::mem::zeroed() };
+        cc.siginfo.ssi_signo = kani::any();
+        cc.siginfo.ssi_code = kani::any();
+        cc.siginfo.ssi_addr = kani::any();
+        ssi = (cc.siginfo.ssi_signo, cc.siginfo.ssi_code, cc.siginfo.ssi_addr);
+        cfg.crash_context = Some(CrashContext { inner: cc });
+    }
+    let mut xb = Buffer::with_capacity(256);
+    let pre: [u8; 8] = kani::any();
+    xb.write_all(&pre);
+    let ed = match exception_stream::write(&mut cfg, &mut xb) {
+        Ok(x) => x,
+        Err(e) => {
+            core::mem::forget(e);
+            panic!("exception_stream::write failed");
+        }
+    };
+    assert_eq!(ed.stream_type, MDStreamType::ExceptionStream as u32);
+    assert_eq!(ed.location.rva, 8);
+    assert_eq!(ed.location.data_size, 168);
+    assert_eq!(xb.len(), 8 + 168);
+    let b = 8;
+    assert_eq!(rd_u32(&xb, b), blamed as u32, "the exception names the blamed thread");
+    if with_crash_context {
+        assert_eq!(rd_u32(&xb, b + 8), ssi.0, "exception code == supplied signal number");
+        assert_eq!(rd_u32(&xb, b + 12) as i32, ssi.1, "exception flags == supplied signal code (negative codes included)");
+        assert_eq!(rd_u64(&xb, b + 24), ssi.2, "exception address == supplied fault address");
+    } else {
+        assert_eq!(rd_u32(&xb, b + 8), 0xFFFF_FFFF, "DUMP_REQUESTED");
+        assert_eq!(rd_u32(&xb, b + 12), 0);
+        assert_eq!(rd_u64(&xb, b + 24), if ctx_kind == 2 { addr as u64 } else { 0 }, "address == the blamed thread's instruction pointer, if known");
+    }
+    assert_eq!(rd_u64(&xb, b + 16), 0, "no chained record");
+    assert_eq!(rd_u32(&xb, b + 32), 0, "no parameters");
+    let (xsize, xrva) = (rd_u32(&xb, b + 160), rd_u32(&xb, b + 164));
+    if ctx_kind == 0 {
+        assert!(xsize == 0 && xrva == 0, "no context: empty location");
+    } else {
+        assert!(xsize == loc.data_size && xrva == loc.rva, "context location == the blamed thread's context");
+    }
+    kani::cover!(with_crash_context && ssi.1 < 0, "negative signal code (sent from user space)");
+    kani::cover!(!with_crash_context || ssi.1 > 0, "kernel-raised code / no crash context");
+    core::mem::forget(cfg);
+}
+macro_rules! exc {
+    ($name:ident, $cc:expr, $kind:expr) => {
+        #[kani::proof]
+        #[kani::unwind(10)]
+        #[kani::stub(std::vec::Vec::resize, crate::verif::env::stub_vec_resize)]
+        fn $name() {
+            exception_record($cc, $kind);
+        }
+    };
+}
+exc!(c05_exception_crash_ctx, true, 1);
+exc!(c05_exception_crash_ctx_addr, true, 2);
+exc!(c05_exception_crash_no_ctx, true, 0);
+exc!(c05_exception_requested_addr, false, 2);
+exc!(c05_exception_requested_none, false, 0);
